@@ -268,8 +268,8 @@ def sortrun (args : List String) : String :=
   | [lim, keys, recs] =>
     match lim.toNat?, parseKeys keys with
     | some lim, some ks =>
-      -- limit 0 never reaches the processor ("sort 0" means no limit); "ip" makes Process fail (validate)
-      if lim = 0 || ks.any (fun k => k.2 == SortOp.other) then "bad-op" else
+      -- limit 0 = `sort 0` = no limit (the parser hands the processor MaxUint64); "ip" makes Process fail (validate)
+      if ks.any (fun k => k.2 == SortOp.other) then "bad-op" else
       let toks := (recs.splitOn "|").flatMap (fun b => if b.isEmpty then [] else b.splitOn ";")
       match toks.mapM (parseRec ks.length) with
       | some rs =>
@@ -277,7 +277,7 @@ def sortrun (args : List String) : String :=
         if !isSWO lt rs then "nonswo"
         else
           let sorted := rs.foldr (insertLt lt) []
-          String.intercalate "," (((classIdx lt sorted).take lim).map toString)
+          String.intercalate "," (((classIdx lt sorted).take (if lim = 0 then sorted.length else lim)).map toString)
       | none => "bad-op"
     | _, _ => "bad-op"
   | _ => "bad-op"
